@@ -204,11 +204,15 @@ ResolvedCommitPresent ==
 NoSpuriousFailure == app.failed = {}
 
 -----------------------------------------------------------------------------
-Init ==
-  /\ pg = [queue |-> <<>>, recv |-> <<>>, chan |-> <<>>, tasks |-> <<>>, runq |-> <<>>,
+InitPg == [queue |-> <<>>, recv |-> <<>>, chan |-> <<>>, tasks |-> <<>>, runq |-> <<>>,
            reqs |-> <<>>, nchan |-> 0, ntask |-> 0, nreq |-> 0]
-  /\ idb = [x \in {MANIFEST} |-> Man(0)]     \* `init` on an empty database has completed
-  /\ app = [k |-> 0, added |-> FALSE, busy |-> FALSE, docs |-> <<>>, resolved |-> {}, failed |-> {}]
+InitIdb == [x \in {MANIFEST} |-> Man(0)]     \* `init` on an empty database has completed
+InitApp == [k |-> 0, added |-> FALSE, busy |-> FALSE, docs |-> <<>>, resolved |-> {}, failed |-> {}]
+
+Init ==
+  /\ pg = InitPg
+  /\ idb = InitIdb
+  /\ app = InitApp
   /\ closed = FALSE
   /\ sched = <<>>
 
